@@ -383,7 +383,8 @@ def make_outcome(w: Workflow, rng: random.Random, mode="complete", ghosts=False)
         script = ["started"]
         submit_ok = True
         customs = w.custom.get(name) or {}
-        if mode == "complete":
+        novanish = mode == "complete_novanish"      # (jobs are never evicted: the design model has no polls)
+        if mode in ("complete", "complete_novanish"):
             # count earlier failures of this instance to stay within the retry budget
             prev = [table.get((str(point), name, k)) for k in range(1, int(sub))]
             efails = sum(1 for o in prev if o and o["submit_ok"] and o["script"][-1] == "failed")
@@ -396,7 +397,7 @@ def make_outcome(w: Workflow, rng: random.Random, mode="complete", ghosts=False)
             vanish = False
             if n_s > sfails_run and r.random() < 0.25:
                 submit_ok = False
-            elif n_s > sfails_run and r.random() < 0.2:
+            elif n_s > sfails_run and r.random() < 0.2 and not novanish:
                 vanish = True        # accepted by the job runner, evicted before it starts
             fail_ok = (efails < n_e) or (name in w.succ_opt)
             will_fail = fail_ok and r.random() < 0.3
@@ -421,7 +422,7 @@ def make_outcome(w: Workflow, rng: random.Random, mode="complete", ghosts=False)
             if submit_ok and r.random() < 0.2:
                 script = ["vanish"]
         table[key] = {"submit_ok": submit_ok, "script": script}
-        if mode != "complete" and not submit_ok and ghost:
+        if mode not in ("complete", "complete_novanish") and not submit_ok and ghost:
             table[key]["ghost"] = True
         return table[key]
     outcome.table = table
